@@ -147,6 +147,15 @@ class Program:
 
     def has(self, name): return name in self.items
 
+    def find_norm(self, key):
+        """item name whose generics-stripped form equals `key` (e.g. `<Vec as ToCoins>::to_coins` for the impl on Vec<Asset>)."""
+        if not hasattr(self, '_norm_index'):
+            from .core import norm
+            self._norm_index = {}
+            for n in self.items:
+                if '<' in n: self._norm_index.setdefault(norm(n), n)
+        return self._norm_index.get(key)
+
     def closure_by_span(self, span):
         """closure item whose first parameter type mentions this `{closure@file:l:c: l:c}` span."""
         if not self.by_closure_span:
